@@ -164,7 +164,12 @@ func runResume(rec *recorder, sc *Scenario) error {
 	}
 	opts := []coercion.Option{coercion.WithMaxLastUpdate(maxAge)}
 	if sc.NoRecovery {
-		opts = append(opts, coercion.WithNoRecovery())
+		// options are applied in order: which one comes first must not matter
+		if sc.ID%2 == 0 {
+			opts = append(opts, coercion.WithNoRecovery())
+		} else {
+			opts = []coercion.Option{coercion.WithNoRecovery(), coercion.WithMaxLastUpdate(maxAge), coercion.WithMaxSubmit(time.Hour)}
+		}
 	}
 	ws, err := coercion.New(ctx, reg, sp, opts...)
 	if err != nil {
